@@ -214,17 +214,38 @@ func (w *WSUT) Finish() {
 	if w.Strat != nil {
 		w.Strat.SetLimit(1 << 20)
 	}
-	for i := 0; i < 3; i++ {
+	for i := 0; i < 40; i++ {
+		moved := false
 		for _, c := range w.Callers {
 			if c.status == 1 {
 				c.listener.OnIgnore()
 				c.status = 3
+				moved = true
 			}
 		}
 		w.settle()
-		// queue callers without cancellation eviction leave at their timeout
-		time.Sleep(time.Duration(w.Cfg.Timeout+1) * 2)
+		// queue callers without cancellation eviction leave at their timeout (or, without one, when they are served)
+		if w.Cfg.Timeout > 0 {
+			time.Sleep(time.Duration(w.Cfg.Timeout+1) * 2)
+		} else {
+			time.Sleep(time.Millisecond)
+		}
 		w.settle()
+		pending := 0
+		for _, c := range w.Callers {
+			if c.status == 0 {
+				pending++
+			}
+		}
+		if !moved && pending == 0 && i >= 2 {
+			break
+		}
+		if pending > 0 {
+			if ls, ok := w.Lim.Acquire(context.Background()); ok {
+				ls.OnIgnore()
+			}
+			w.settle()
+		}
 	}
 	// one more acquire/release broadcasts to helper goroutines orphaned in cond.Wait
 	if ls, ok := w.Lim.Acquire(context.Background()); ok {
